@@ -594,6 +594,34 @@ fn m17_two_parking_writers_one_credit_vs_close() {
     report("m17_two_parking_writers_one_credit_vs_close");
 }
 
+/// 22. two threads poll the same stream for permission with NO credit left: neither may send, and
+/// the counter must read zero afterwards (a transient underflow must not be taken for credit)
+#[test]
+fn m22_two_writers_no_credit() {
+    model(|| {
+        let p = parts(0);
+        let Parts { stream, data, .. } = p;
+        let credit = data.psh_send_remaining.clone();
+        let stream = Arc::new(stream);
+        let s2 = stream.clone();
+        let poll_once = |s: &MuxStream| {
+            let waker = futures_util::task::noop_waker();
+            let cx = Context::from_waker(&waker);
+            matches!(s.poll_obtain_write_permission(&cx), Poll::Ready(Some(())))
+        };
+        let t = thread::spawn(move || poll_once(&s2));
+        let a = poll_once(&stream);
+        let b = t.join().expect("second writer");
+        let sent = u32::from(a) + u32::from(b);
+        let left = credit.load(Ordering::SeqCst);
+        assert_eq!(sent, 0, "no credit, yet {sent} frame(s) were allowed");
+        assert_eq!(left, 0, "no grant, no frame: the counter must read 0 (reads {left})");
+        outcome(format!("sent={sent} left={left}"));
+        drop(data);
+    });
+    report("m22_two_writers_no_credit");
+}
+
 /// 18. a writer parked on credit ∥ a local shutdown of the same stream from another thread (the `&self`
 /// API): closing the write side must wake the writer, which then fails
 #[test]
